@@ -17,6 +17,19 @@ E2 (bounded-exhaustive shape enumeration) + E1 (all refinement states of small h
 Spaces: 1D = the whole knot-vector alphabet of ref/kvs.py (all interior multiplicity vectors), 2D/3D = all ordered
 pairs / triples of small axis alphabets (mixed degrees, unequal dof counts, repeated knots, graded G3/G4, shifted S3).
 Because both maps are linear, checking every unit vector decides all coefficient vectors.
+
+Acceptance (fixed numbers in props/c17_tp.py / c17_hier.py; worst observed/tolerance ratio over the thorough space on
+the unchanged tree is printed by every run and stored in the evidence, all <= 1.1e-3 except where noted):
+  direct paths (collocation solves, Kronecker mass inverse, sparse LU of the hierarchical mass matrix):
+      max |x - e_j| <= 1e-12 * cond, and for mass solves additionally ||x - e_j||_M <= 1e-8 ||e_j||_M
+  CG path (project_L2 with geo):  ||M(x - e_j)|| <= 1e-9 ||M e_j||  and  ||x - e_j||_M <= 1e-6 ||e_j||_M, stderr
+      captured.  On the unchanged tree CG is called with atol=1e-12, which stops it early (or immediately, result 0)
+      whenever ||b|| << 1: keys project_L2:geo:cg-atol:zero-result / :early-stop; with atol=0 every case reaches
+      1e-12 (ratio 1e-3 to the tolerance).
+  node matching / orthogonality: 1e-10 relative to the data / load vector.
+Known on the unchanged tree besides the CG tolerance: hier:project_L2:reproduce:coarse-rhs-quadrature (the load vector
+entry of a coarse active function is integrated with the coarse level's Gauss rule across refined cells, so finer
+functions of the space itself are not reproduced, errors ~1e-2).
 """
 import itertools
 
